@@ -60,6 +60,20 @@ theorem c04_inv_step (s : PSet V) (op : Op V) (hs : Coherent s) : Coherent (s.st
           cases hu : PSet.union s t with
           | error e => exact hs
           | ok u => exact union_coherent hs htc hu
+  | unionN others pos =>
+    simp only [PSet.step]
+    have hsp := createSets_spec others
+    cases hl : Spec.createLists others with
+    | error e => rw [hl] at hsp; simp only at hsp; rw [hsp]; exact hs
+    | ok oss =>
+      rw [hl] at hsp
+      obtain ⟨ts, h1, _, h3⟩ := hsp
+      rw [h1]
+      simp only
+      obtain ⟨u, hu, huc, _⟩ := unionN_insert hs h3 pos
+      rw [hu]
+      exact huc
+  | chfix n v => exact (changeFixedValue_coherent hs n v).1
   | copy => exact hs
   | map a models al => exact hs
 
@@ -102,8 +116,8 @@ example : (PSet.run (PSet.empty : PSet Int)
 /-! ## rejected edits -/
 
 /-- **a rejected edit leaves the parameter set exactly as it was** (all fields, hence all views). -/
-theorem c04_reject_leaves_state (s : PSet V) (op : Op V) (e : Err) (h : (s.step op).2 = .error e) :
-    (s.step op).1 = s := by
+theorem c04_reject_leaves_state (s : PSet V) (hs : Coherent s) (op : Op V) (e : Err)
+    (h : (s.step op).2 = .error e) : (s.step op).1 = s := by
   cases op with
   | add a front =>
     simp only [PSet.step] at h ⊢
@@ -137,6 +151,17 @@ theorem c04_reject_leaves_state (s : PSet V) (op : Op V) (e : Err) (h : (s.step 
         cases hu : (if left = true then PSet.union s t else PSet.union t s) with
         | error e => rfl
         | ok u => rw [hu] at h; cases h
+  | unionN others pos =>
+    simp only [PSet.step] at h ⊢
+    cases hc : createSets others with
+    | error e => rfl
+    | ok ts =>
+      rw [hc] at h
+      simp only at h ⊢
+      cases hu : PSet.unionN (insertAt ts pos s) with
+      | error e => rfl
+      | ok u => rw [hu] at h; cases h
+  | chfix n v => exact (changeFixedValue_coherent hs n v).2 e h
   | copy => cases h
   | map a models al => rfl
 
@@ -162,9 +187,9 @@ theorem c04_reject_bounds_make_floating (p : Param V) (ini vmin vmax : Option V)
   simp [this]
 
 /-- inside a set: the rejected assignment changes nothing -/
-theorem c04_reject_bounds_in_set (s : PSet V) (n : String) (v : V) (e : Err)
+theorem c04_reject_bounds_in_set (s : PSet V) (hs : Coherent s) (n : String) (v : V) (e : Err)
     (h : (s.setValue n v).2 = .error e) : (s.setValue n v).1 = s :=
-  c04_reject_leaves_state s (.setv n v) e h
+  c04_reject_leaves_state s hs (.setv n v) e h
 
 /-- the value of a fixed parameter cannot be changed through the setter -/
 theorem c04_reject_fixed_change (p : Param V) (v : V) (hf : p.isfixed = true) (hv : v ≠ p.initial) :
@@ -296,8 +321,8 @@ theorem C04.mapParam_error (s : PMM V) (p : Param V) (models : Option (List Nat)
 
 /-- a rejected mapper edit (duplicate alias, duplicate global name, alias list of wrong length, empty
 model list, rejected fix / float / value) leaves the mapper exactly as it was -/
-theorem c04_pmm_reject_leaves_state (s : PMM V) (op : Op V) (e : Err) (h : (s.step op).2 = .error e) :
-    (s.step op).1 = s := by
+theorem c04_pmm_reject_leaves_state (s : PMM V) (hw : C04.PMMWF s) (op : Op V) (e : Err)
+    (h : (s.step op).2 = .error e) : (s.step op).1 = s := by
   cases op with
   | map a models al =>
     simp only [PMM.step] at h ⊢
@@ -309,18 +334,23 @@ theorem c04_pmm_reject_leaves_state (s : PMM V) (op : Op V) (e : Err) (h : (s.st
       exact C04.mapParam_error s p models al e h
   | fix req =>
     simp only [PMM.step] at h ⊢
-    have h1 : (s.gps.makeParamsFixed req).1 = s.gps := c04_reject_leaves_state s.gps (.fix req) e h
+    have h1 : (s.gps.makeParamsFixed req).1 = s.gps := c04_reject_leaves_state s.gps hw.gps (.fix req) e h
     rw [h1]
   | float req =>
     simp only [PMM.step] at h ⊢
-    have h1 : (s.gps.makeParamsFloating req).1 = s.gps := c04_reject_leaves_state s.gps (.float req) e h
+    have h1 : (s.gps.makeParamsFloating req).1 = s.gps := c04_reject_leaves_state s.gps hw.gps (.float req) e h
     rw [h1]
   | setv n v =>
     simp only [PMM.step] at h ⊢
-    have h1 : (s.gps.setValue n v).1 = s.gps := c04_reject_leaves_state s.gps (.setv n v) e h
+    have h1 : (s.gps.setValue n v).1 = s.gps := c04_reject_leaves_state s.gps hw.gps (.setv n v) e h
+    rw [h1]
+  | chfix n v =>
+    simp only [PMM.step] at h ⊢
+    have h1 : (s.gps.changeFixedValue n v).1 = s.gps := c04_reject_leaves_state s.gps hw.gps (.chfix n v) e h
     rw [h1]
   | add a front => rfl
   | union o l => rfl
+  | unionN o l => rfl
   | copy => rfl
 
 /-! ### the mapper invariant is kept by every edit -/
@@ -534,8 +564,13 @@ theorem c04_pmm_inv_step (s : PMM V) (op : Op V) (hw : C04.PMMWF s) : C04.PMMWF 
         simpa using this
     exact ⟨c04_inv_step s.gps (.setv n v) hw.gps, hw.rows,
       fun row hr => by rw [hw.cols row hr]; exact hl.symm, hw.uniq⟩
+  | chfix n v =>
+    have hl := changeFixedValue_length hw.gps n v
+    exact ⟨c04_inv_step s.gps (.chfix n v) hw.gps, hw.rows,
+      fun row hr => by rw [hw.cols row hr]; exact hl.symm, hw.uniq⟩
   | add a front => exact hw
   | union o l => exact hw
+  | unionN o l => exact hw
   | copy => exact hw
 
 theorem c04_pmm_inv_init (models : List (String × Bool)) : C04.PMMWF (PMM.create models : PMM V) :=
@@ -821,6 +856,29 @@ theorem c04_simulates (s : PSet V) (hs : Coherent s) (op : Op V) :
         · obtain ⟨u, hu, _, hup⟩ := union_params hs htc
           simp only [if_true, hu, liftE, hup, htp']
       · rw [if_neg hnd, addAll_dup (s := PSet.empty) coherent_empty hw (by simpa [PSet.empty] using hnd)]
+  | unionN others pos =>
+    simp only [PSet.step, Spec.step]
+    have hsp := createSets_spec others
+    cases hl : Spec.createLists others with
+    | error e => rw [hl] at hsp; simp only at hsp ⊢; rw [hsp]
+    | ok oss =>
+      rw [hl] at hsp
+      obtain ⟨ts, h1, h2, h3⟩ := hsp
+      rw [h1]
+      simp only
+      obtain ⟨u, hu, _, hup⟩ := unionN_insert hs h3 pos
+      rw [hu]
+      simp only [liftE, hup, h2]
+  | chfix n v =>
+    simp only [PSet.step, Spec.step]
+    rw [changeFixedValue_simulates hs n v, changeFixedAux_spec n v s.params hs.nodup]
+    cases s.params.find? (fun p => p.name = n) with
+    | none => rfl
+    | some p =>
+      simp only
+      cases p.changeFixedValue v with
+      | error e => rfl
+      | ok p' => rfl
   | copy => rfl
   | map a models al => rfl
 
@@ -1150,3 +1208,80 @@ theorem c04_params_dict_total (s : PSet V) (hs : Coherent s) (q : List String) (
     omega
   · simp only [PSet.views]
     rw [List.map_snd_zip (by omega)]
+
+/-! ## Deepening round: `change_fixed_value`, the cache refresh, n-ary union -/
+
+/-- `union(s_1, …, s_k)` (k ≥ 1, all coherent): accepted; the parameters of the first set, then, set
+after set, those whose name is new -/
+theorem c04_unionN_result (a : PSet V) (rest : List (PSet V)) (ha : Coherent a) (hr : ∀ b ∈ rest, Coherent b) :
+    ∃ u, PSet.unionN (a :: rest) = .ok u ∧ Coherent u ∧
+      u.params = rest.foldl (fun acc b => Spec.unionList acc b.params) a.params := by
+  obtain ⟨u, h, hc, hp⟩ := unionN_params ha hr
+  refine ⟨u, h, hc, ?_⟩
+  rw [hp]
+  simp only [List.map_cons, Spec.unionAll, List.foldl_map]
+
+/-- `union()` without any set is a `ValueError` -/
+theorem c04_unionN_empty : PSet.unionN ([] : List (PSet V)) = .error .valueError := rfl
+
+/-- the sanctioned change of a fixed value (`change_fixed_value` + `update_fixed_param_value_cache`),
+accepted: exactly the named fixed parameter gets the new initial = value, everything else stays -/
+theorem c04_change_fixed_result (s : PSet V) (hs : Coherent s) (n : String) (v : V)
+    (h : (s.changeFixedValue n v).2 = .ok ()) :
+    (s.changeFixedValue n v).1.params =
+      s.params.map (fun p => if p.name = n then { p with initial := v, value := v } else p) ∧
+    Coherent (s.changeFixedValue n v).1 := by
+  refine ⟨?_, (changeFixedValue_coherent hs n v).1⟩
+  have h1 := c04_simulates s hs (.chfix n v)
+  simp only [PSet.step, Spec.step] at h1
+  have h2 := congrArg Prod.snd h1
+  have h3 := congrArg Prod.fst h1
+  simp only at h2 h3
+  rw [h] at h2
+  rw [h3]
+  cases hf : s.params.find? (fun p => p.name = n) with
+  | none => rw [hf] at h2; cases h2
+  | some p =>
+    rw [hf] at h2
+    simp only at h2 ⊢
+    cases hc : p.changeFixedValue v with
+    | error e => rw [hc] at h2; cases h2
+    | ok p' => rfl
+
+/-- a floating parameter has no fixed value to change -/
+theorem c04_change_fixed_rejects_floating (p : Param V) (v : V) (hf : p.isfixed = false) :
+    p.changeFixedValue v = .error .valueError := by
+  simp [Param.changeFixedValue, hf]
+
+/-- **the cache refresh restores coherence**: whatever the fixed value cache holds (right length), after
+`update_fixed_param_value_cache()` the set is coherent again and the call does not raise -/
+theorem c04_update_cache_restores (s : PSet V) (h : CoherentModVals s) :
+    s.updateFixedValueCache.2 = .ok () ∧ Coherent s.updateFixedValueCache.1 :=
+  ⟨(updateCache_coherent h).1, (updateCache_coherent h).2.1⟩
+
+/-- `change_fixed_value` on the Parameter object alone keeps everything but the value cache -/
+theorem c04_change_fixed_raw_partial (s : PSet V) (hs : Coherent s) (n : String) (v : V) :
+    CoherentModVals (s.changeFixedRaw n v).1 := changeFixedRaw_modVals hs n v
+
+/-- the full claim "all views agree after `change_fixed_value`" for the raw call -/
+def c04_change_fixed_raw_statement : Prop :=
+  ∀ (s : PSet Int) (n : String) (v : Int), Coherent s → Coherent (s.changeFixedRaw n v).1
+
+/-- … is false (documented: the caller has to call `update_fixed_param_value_cache`): after
+`b.change_fixed_value(6)` the cache still holds 5 -/
+theorem c04_change_fixed_raw_counterexample : ¬ c04_change_fixed_raw_statement := by
+  intro h
+  have hs : Coherent (PSet.run (PSet.empty : PSet Int) [.add ⟨"b", 5, none, none, none⟩ false]) :=
+    C04.run_coherent _ _ c04_inv_init
+  have := (h _ "b" 6 hs).caches.fixedVals
+  revert this
+  decide
+
+example : ((PSet.run (PSet.empty : PSet Int) [.add ⟨"b", 5, none, none, none⟩ false, .chfix "b" 6]).fixedVals,
+    (PSet.run (PSet.empty : PSet Int) [.add ⟨"b", 5, none, none, none⟩ false, .chfix "b" 6]).params.map (·.initial))
+    = ([6], [6]) := by decide
+
+example : (PSet.run (PSet.empty : PSet Int)
+    [.add ⟨"a", 1, some 0, some 2, none⟩ false,
+     .unionN [[⟨"b", 5, none, none, none⟩], [⟨"a", 9, none, none, none⟩, ⟨"c", 2, none, none, none⟩]] 1]).params.map
+      (fun p => (p.name, p.initial)) = [("b", 5), ("a", 1), ("c", 2)] := by decide
